@@ -558,8 +558,15 @@ func Evatra(l *WaterSharedVars, g *GlobalVarsMain, hPath *HFilePath, zeit int) {
 		// ! LURMAX                = Ausmaß Luftmangel (s.u.)
 		// ! LUMDAY                = kumulative Dauer des Luftmangels (Tage), maximum 4
 		// ! LURED                 = Reduktionsfaktor fuer Transpiration
-		LUPOR := (g.PORGES[0] + g.PORGES[1] + g.PORGES[2] - g.WG[0][0] - g.WG[0][1] - g.WG[0][2]) / 3
-		if LUPOR < g.LUKRIT[g.INTWICK.Index] {
+		// air-filled pore volume of the upper 30 cm; profiles thinner than that have no third layer
+		// (its pore volume reads 0 and made the reduction 0/0 = NaN when the critical value is 0)
+		luLayers := min(3, g.N)
+		LUPOR := 0.0
+		for i := 0; i < luLayers; i++ {
+			LUPOR += g.PORGES[i] - g.WG[0][i]
+		}
+		LUPOR = LUPOR / float64(luLayers)
+		if g.LUKRIT[g.INTWICK.Index] > 0 && LUPOR < g.LUKRIT[g.INTWICK.Index] { // a critical value of 0 means: never short of air (and avoids 0/0 below)
 			g.LUMDAY = g.LUMDAY + g.DT.Index
 			if g.LUMDAY > 4 {
 				g.LUMDAY = 4
